@@ -944,8 +944,13 @@ static int write_table(void *context, cif_value_tp *table_value) {
                         SET_RESULT(CIF_ERROR);
                     } else if ((result = write_char(context, kv, CIF_FALSE)) != CIF_OK) {
                         SET_RESULT(result);
-                    } else if (write_literal(context, ":", 1, CIF_NOWRAP) != 1) {
-                        SET_RESULT(CIF_ERROR);
+                    } else if ((result = write_literal(context, ":", 1, CIF_NOWRAP)) != 1) {
+                        /*
+                         * The key was started on a fresh line if it did not fit on the current one, so if there is no
+                         * room left for the colon then the key, with its delimiters, fills a whole line by itself: it
+                         * cannot be written as a quoted or triple-quoted string followed by a colon.
+                         */
+                        SET_RESULT((result == -CIF_OVERLENGTH_LINE) ? CIF_DISALLOWED_VALUE : CIF_ERROR);
                     } else {
                         if ((result = write_item(NULL, value, context)) > 0) {
                             /* an error code */
